@@ -1,6 +1,7 @@
 (** C05 — property theorems only; each closed by [exact] of a lemma proved elsewhere. *)
 From Coq Require Import ZArith List.
-From VB Require Import Stateless.EmbedDefs Stateless.EmbedProofs Stateless.MerkleDefs Stateless.MerkleProofs.
+From VB Require Import Stateless.EmbedDefs Stateless.EmbedProofs Stateless.MerkleDefs Stateless.MerkleProofs
+     Stateless.CheckDefs Stateless.CheckProofs.
 Import ListNotations.
 Local Open Scope Z_scope.
 
@@ -76,3 +77,203 @@ Theorem C05_merkle_sound_vbk : forall (sha256 : list Z -> list Z) subject treeIn
   firstn 16 (vbk_spec sha256 treeIndex index (length layers) subject 0 layers) = root.
 Proof. exact merkle_sound_vbk. Qed.
 Print Assumptions C05_merkle_sound_vbk.
+
+Theorem C05_btc_context_sound :
+  forall (BtcBlock : Type) (btc_hash btc_prev : BtcBlock -> list Z) (btc_pow : BtcBlock -> bool)
+  (sha256d : list Z -> list Z) (verify : list Z -> list Z -> list Z -> bool)
+  (addr_from_pubkey addr_checksum : list Z -> list Z) (vbk_magic : option Z)
+  (t : VbkPopTx BtcBlock),
+  zlen (p_btctx BtcBlock t) < 2 ^ 64 ->
+  check_vbk_pop_tx BtcBlock btc_hash btc_prev btc_pow sha256d verify addr_from_pubkey addr_checksum
+  vbk_magic t = Ok ->
+  length (p_pubbytes BtcBlock t) = 80%nat /\
+  ((exists i : nat,
+  (i + 80 <= length (p_btctx BtcBlock t))%nat /\
+  firstn 80 (skipn i (p_btctx BtcBlock t)) = p_pubbytes BtcBlock t) \/
+  split_embedding (p_pubbytes BtcBlock t) (p_btctx BtcBlock t)) /\
+  mp_subject (p_path BtcBlock t) = p_btctx_hash BtcBlock t /\
+  btc_spec sha256d (mp_subject (p_path BtcBlock t)) (mp_index (p_path BtcBlock t)) 0
+  (mp_layers (p_path BtcBlock t)) = p_bop_root BtcBlock t /\
+  Forall (fun b : BtcBlock => btc_pow b = true) (p_context BtcBlock t) /\
+  btc_linked BtcBlock btc_hash btc_prev (p_context BtcBlock t).
+Proof. exact @btc_context_sound. Qed.
+Print Assumptions C05_btc_context_sound.
+
+Theorem C05_signature_sound_poptx :
+  forall (BtcBlock : Type) (btc_hash btc_prev : BtcBlock -> list Z) (btc_pow : BtcBlock -> bool)
+  (sha256d : list Z -> list Z) (verify : list Z -> list Z -> list Z -> bool)
+  (addr_from_pubkey addr_checksum : list Z -> list Z) (vbk_magic : option Z)
+  (t : VbkPopTx BtcBlock),
+  check_vbk_pop_tx BtcBlock btc_hash btc_prev btc_pow sha256d verify addr_from_pubkey addr_checksum
+  vbk_magic t = Ok ->
+  p_network BtcBlock t = vbk_magic /\
+  p_address BtcBlock t = addr_from_pubkey (p_pubkey BtcBlock t) /\
+  verify (p_hash BtcBlock t) (p_signature BtcBlock t) (p_pubkey BtcBlock t) = true.
+Proof. exact @signature_sound_poptx. Qed.
+Print Assumptions C05_signature_sound_poptx.
+
+Theorem C05_signature_sound_vbktx :
+  forall (verify : list Z -> list Z -> list Z -> bool)
+  (addr_from_pubkey addr_checksum : list Z -> list Z) (ctxinfo_root : list Z -> option (list Z))
+  (check_block_header : list Z -> list Z -> bool) (vbk_magic : option Z) (alt_id : Z)
+  (t : VbkTx),
+  check_vbk_tx verify addr_from_pubkey addr_checksum ctxinfo_root check_block_header vbk_magic alt_id t =
+  Ok ->
+  t_address t = addr_from_pubkey (t_pubkey t) /\ verify (t_hash t) (t_signature t) (t_pubkey t) = true.
+Proof. exact @signature_sound_vbktx. Qed.
+Print Assumptions C05_signature_sound_vbktx.
+
+Theorem C05_pubdata_sound :
+  forall (verify : list Z -> list Z -> list Z -> bool)
+  (addr_from_pubkey addr_checksum : list Z -> list Z) (ctxinfo_root : list Z -> option (list Z))
+  (check_block_header : list Z -> list Z -> bool) (vbk_magic : option Z) (alt_id : Z)
+  (t : VbkTx),
+  check_vbk_tx verify addr_from_pubkey addr_checksum ctxinfo_root check_block_header vbk_magic alt_id t =
+  Ok ->
+  pd_identifier (t_pubdata t) = alt_id /\
+  (exists root : list Z,
+  ctxinfo_root (pd_contextInfo (t_pubdata t)) = Some root /\
+  check_block_header (pd_header (t_pubdata t)) root = true).
+Proof. exact @pubdata_sound. Qed.
+Print Assumptions C05_pubdata_sound.
+
+Theorem C05_vtb_sound :
+  forall (BtcBlock : Type) (btc_hash btc_prev : BtcBlock -> list Z) (btc_pow : BtcBlock -> bool)
+  (sha256d sha256 : list Z -> list Z) (verify : list Z -> list Z -> list Z -> bool)
+  (addr_from_pubkey addr_checksum : list Z -> list Z) (vbk_magic : option Z)
+  (v : VTB BtcBlock),
+  full_check_vtb BtcBlock btc_hash btc_prev btc_pow sha256d sha256 verify addr_from_pubkey addr_checksum
+  vbk_magic v = Ok ->
+  check_vbk_pop_tx BtcBlock btc_hash btc_prev btc_pow sha256d verify addr_from_pubkey addr_checksum
+  vbk_magic (v_tx BtcBlock v) = Ok /\
+  vp_subject (v_path BtcBlock v) = p_hash BtcBlock (v_tx BtcBlock v) /\
+  firstn 16
+  (vbk_spec sha256 (vp_treeIndex (v_path BtcBlock v)) (vp_index (v_path BtcBlock v))
+  (length (vp_layers (v_path BtcBlock v))) (vp_subject (v_path BtcBlock v)) 0
+  (vp_layers (v_path BtcBlock v))) = v_containing_root BtcBlock v.
+Proof. exact @vtb_sound. Qed.
+Print Assumptions C05_vtb_sound.
+
+Theorem C05_atv_sound :
+  forall (sha256 : list Z -> list Z) (verify : list Z -> list Z -> list Z -> bool)
+  (addr_from_pubkey addr_checksum : list Z -> list Z) (ctxinfo_root : list Z -> option (list Z))
+  (check_block_header : list Z -> list Z -> bool) (vbk_magic : option Z) (alt_id : Z)
+  (a : ATV),
+  full_check_atv sha256 verify addr_from_pubkey addr_checksum ctxinfo_root check_block_header vbk_magic
+  alt_id a = Ok ->
+  check_vbk_tx verify addr_from_pubkey addr_checksum ctxinfo_root check_block_header vbk_magic alt_id
+  (a_tx a) = Ok /\
+  vp_subject (a_path a) = t_hash (a_tx a) /\
+  firstn 16
+  (vbk_spec sha256 (vp_treeIndex (a_path a)) (vp_index (a_path a)) (length (vp_layers (a_path a)))
+  (vp_subject (a_path a)) 0 (vp_layers (a_path a))) = a_bop_root a.
+Proof. exact @atv_sound. Qed.
+Print Assumptions C05_atv_sound.
+
+Theorem C05_vbk_blocks_sound :
+  forall (VbkBlock : Type) (vbk_height : VbkBlock -> Z) (vbk_hash_trim vbk_prev : VbkBlock -> list Z)
+  (vbk_plausible vbk_pow : VbkBlock -> bool) (bs : list VbkBlock),
+  check_vbk_blocks VbkBlock vbk_height vbk_hash_trim vbk_prev vbk_plausible vbk_pow bs = 0 ->
+  Forall (fun b : VbkBlock => vbk_plausible b = true /\ vbk_pow b = true) bs /\
+  match bs with
+  | [] => True
+  | b :: r => vlinked_from VbkBlock vbk_height vbk_hash_trim vbk_prev (vbk_height b) (vbk_hash_trim b) r
+  end.
+Proof. exact @vbk_blocks_sound. Qed.
+Print Assumptions C05_vbk_blocks_sound.
+
+Theorem C05_popdata_limits :
+  forall (BtcBlock VbkBlock : Type) (btc_hash btc_prev : BtcBlock -> list Z)
+  (btc_pow : BtcBlock -> bool) (vbk_plausible vbk_pow : VbkBlock -> bool)
+  (sha256d sha256 : list Z -> list Z) (verify : list Z -> list Z -> list Z -> bool)
+  (addr_from_pubkey addr_checksum : list Z -> list Z) (ctxinfo_root : list Z -> option (list Z))
+  (check_block_header : list Z -> list Z -> bool) (vbk_magic : option Z)
+  (alt_id max_size max_vbk max_vtb max_atv : Z) (d : PopData BtcBlock VbkBlock)
+  (calls : list call),
+  fst
+  (check_pop_data BtcBlock VbkBlock btc_hash btc_prev btc_pow vbk_plausible vbk_pow sha256d sha256
+  verify addr_from_pubkey addr_checksum ctxinfo_root check_block_header vbk_magic alt_id max_size
+  max_vbk max_vtb max_atv d
+  (fold_left
+  (do_call BtcBlock VbkBlock btc_hash btc_prev btc_pow vbk_plausible vbk_pow sha256d sha256
+  verify addr_from_pubkey addr_checksum ctxinfo_root check_block_header vbk_magic alt_id
+  max_size max_vbk max_vtb max_atv d) calls (init_state BtcBlock VbkBlock d))) = Ok ->
+  pop_full BtcBlock VbkBlock btc_hash btc_prev btc_pow vbk_plausible vbk_pow sha256d sha256 verify
+  addr_from_pubkey addr_checksum ctxinfo_root check_block_header vbk_magic alt_id max_size max_vbk
+  max_vtb max_atv d.
+Proof. exact @popdata_limits. Qed.
+Print Assumptions C05_popdata_limits.
+
+Theorem C05_checked_memo_sound :
+  forall (BtcBlock VbkBlock : Type) (btc_hash btc_prev : BtcBlock -> list Z)
+  (btc_pow : BtcBlock -> bool) (vbk_plausible vbk_pow : VbkBlock -> bool)
+  (sha256d sha256 : list Z -> list Z) (verify : list Z -> list Z -> list Z -> bool)
+  (addr_from_pubkey addr_checksum : list Z -> list Z) (ctxinfo_root : list Z -> option (list Z))
+  (check_block_header : list Z -> list Z -> bool) (vbk_magic : option Z)
+  (alt_id max_size max_vbk max_vtb max_atv : Z) (d : PopData BtcBlock VbkBlock)
+  (calls : list call),
+  pop_inv BtcBlock VbkBlock btc_hash btc_prev btc_pow vbk_plausible vbk_pow sha256d sha256 verify
+  addr_from_pubkey addr_checksum ctxinfo_root check_block_header vbk_magic alt_id max_size max_vbk
+  max_vtb max_atv d
+  (fold_left
+  (do_call BtcBlock VbkBlock btc_hash btc_prev btc_pow vbk_plausible vbk_pow sha256d sha256 verify
+  addr_from_pubkey addr_checksum ctxinfo_root check_block_header vbk_magic alt_id max_size
+  max_vbk max_vtb max_atv d) calls (init_state BtcBlock VbkBlock d)).
+Proof. exact @checked_memo_sound. Qed.
+Print Assumptions C05_checked_memo_sound.
+
+Theorem C05_honest_complete_vtb :
+  forall (BtcBlock : Type) (btc_hash btc_prev : BtcBlock -> list Z) (btc_pow : BtcBlock -> bool)
+  (sha256d sha256 : list Z -> list Z) (verify : list Z -> list Z -> list Z -> bool)
+  (addr_from_pubkey addr_checksum : list Z -> list Z) (vbk_magic : option Z)
+  (v : VTB BtcBlock),
+  let t := v_tx BtcBlock v in
+  zlen_g (p_context BtcBlock t) <= 65535 ->
+  p_network BtcBlock t = vbk_magic ->
+  length (p_pubbytes BtcBlock t) = 80%nat ->
+  (exists i : nat, firstn 80 (skipn i (p_btctx BtcBlock t)) = p_pubbytes BtcBlock t) ->
+  mp_subject (p_path BtcBlock t) = p_btctx_hash BtcBlock t ->
+  btc_spec sha256d (mp_subject (p_path BtcBlock t)) (mp_index (p_path BtcBlock t)) 0
+  (mp_layers (p_path BtcBlock t)) = p_bop_root BtcBlock t ->
+  Forall (fun b : BtcBlock => btc_pow b = true) (p_context BtcBlock t) ->
+  btc_linked BtcBlock btc_hash btc_prev (p_context BtcBlock t) ->
+  p_address BtcBlock t = addr_from_pubkey (p_pubkey BtcBlock t) ->
+  verify (p_hash BtcBlock t) (p_signature BtcBlock t) (p_pubkey BtcBlock t) = true ->
+  vp_subject (v_path BtcBlock v) = p_hash BtcBlock t ->
+  firstn 16
+  (vbk_spec sha256 (vp_treeIndex (v_path BtcBlock v)) (vp_index (v_path BtcBlock v))
+  (length (vp_layers (v_path BtcBlock v))) (vp_subject (v_path BtcBlock v)) 0
+  (vp_layers (v_path BtcBlock v))) = v_containing_root BtcBlock v ->
+  full_check_vtb BtcBlock btc_hash btc_prev btc_pow sha256d sha256 verify addr_from_pubkey addr_checksum
+  vbk_magic v = Ok.
+Proof. exact @honest_vtb_complete. Qed.
+Print Assumptions C05_honest_complete_vtb.
+
+Theorem C05_honest_complete_atv :
+  forall (sha256 : list Z -> list Z) (verify : list Z -> list Z -> list Z -> bool)
+  (addr_from_pubkey addr_checksum : list Z -> list Z) (ctxinfo_root : list Z -> option (list Z))
+  (check_block_header : list Z -> list Z -> bool) (vbk_magic : option Z) (alt_id : Z)
+  (a : ATV),
+  let t := a_tx a in
+  t_outputs t <= 255 ->
+  t_network t = vbk_magic ->
+  0 <= t_fee t ->
+  pd_identifier (t_pubdata t) = alt_id ->
+  (exists root : list Z,
+  ctxinfo_root (pd_contextInfo (t_pubdata t)) = Some root /\
+  check_block_header (pd_header (t_pubdata t)) root = true) ->
+  t_address t = addr_from_pubkey (t_pubkey t) ->
+  verify (t_hash t) (t_signature t) (t_pubkey t) = true ->
+  vp_subject (a_path a) = t_hash t ->
+  firstn 16
+  (vbk_spec sha256 (vp_treeIndex (a_path a)) (vp_index (a_path a)) (length (vp_layers (a_path a)))
+  (vp_subject (a_path a)) 0 (vp_layers (a_path a))) = a_bop_root a ->
+  full_check_atv sha256 verify addr_from_pubkey addr_checksum ctxinfo_root check_block_header vbk_magic
+  alt_id a = Ok.
+Proof. exact @honest_atv_complete. Qed.
+Print Assumptions C05_honest_complete_atv.
+
+Theorem C05_netbyte_v0_refuted :
+  exists a b : option Z, net_ne_v0 a b = false /\ a <> b.
+Proof. exact @netbyte_v0_refuted. Qed.
+Print Assumptions C05_netbyte_v0_refuted.
